@@ -390,8 +390,9 @@ func TestC10(t *testing.T) {
 			// F9 is about rewards, which this check does not look at; of block-1 staking only what F11 is about is kept out
 			p.EarlyQuiet, p.F11Narrow = false, true
 			p.PowerTies = true
+			p.Consensus = 50
 			p.W["stake"], p.W["unstake"] = 30, 20
-			p.W["propose"], p.W["vote"] = 10, 12
+			p.W["propose"], p.W["vote"] = 10, 14
 			p.W["deploy"], p.W["call"], p.W["setdoc"] = 1, 1, 1
 			p.PEvidence = 8
 			p.PAbsent = 8
